@@ -62,18 +62,28 @@ func longListValues(r *rand.Rand, ec, n int, ascii bool) []ff.PLYValue {
 	return vals
 }
 
-// casePlyLong: case k of a run.  The first cases sweep format x {just above the bound, far above};
-// the others draw a length from longLens.
+// casePlyLong: case k of a run.  The first three cases are 4097 entries in each format, the next three
+// one length far above the bound each (a few thousand, 65535, above 65535); the others draw a length
+// from longLens.
+var longFmtShift int
+
 func casePlyLong(c *hlib.Ctx, k int) {
 	r := c.Rng
-	format := ff.PLYFormat(k % 3)
+	if k == 0 {
+		longFmtShift = r.Intn(3) // which format gets which of the fixed lengths below varies with the seed
+	}
+	format := ff.PLYFormat((k + longFmtShift) % 3)
 	ascii := format == ff.PLYFormatASCII
 	var n int
 	switch {
 	case k < 3:
 		n = 4097
-	case k < 6:
-		n = []int{5000, 8193, 40000, 65535, 65536, 70001}[r.Intn(6)]
+	case k == 3:
+		n = []int{5000, 8193, 40000}[r.Intn(3)]
+	case k == 4:
+		n = 65535
+	case k == 5:
+		n = []int{65536, 70001}[r.Intn(2)]
 	default:
 		n = longLens[r.Intn(len(longLens))]
 	}
